@@ -7,7 +7,7 @@
    (next, body, fails, isnil, maxdepth), all programs (any number of goroutines, any
    operations) and ALL schedules. *)
 From Coq Require Import List Arith Bool.
-From GoPdf.C18 Require Import Cache CacheLemmas CacheInv CacheExcl CacheOnce CacheCount CacheLive CacheTypes CachePair CacheSeq CacheThm CacheExamples.
+From GoPdf.C18 Require Import Cache CacheLemmas CacheInv CacheExcl CacheOnce CacheCount CacheLive CacheTypes CacheRank CachePair CacheSeq CacheProv CacheThm CacheExamples Pool.
 Import ListNotations.
 
 (* ---- agree: all calls for one object and type return one value ---- *)
@@ -160,6 +160,36 @@ Theorem no_deadlock :
 Proof. exact no_deadlock_thm. Qed.
 Print Assumptions no_deadlock.
 
+(* the general form: it suffices that the exclusive-dependency relation between keys is well-founded -
+   given as a rank rk on (reference, type): inside the decode function run by a call for key k, nested
+   Decodes are for keys of rank <= rk k and nested DecodeExclusives for keys of rank < rk k.
+   Top-level programs are unrestricted.  (no_deadlock above is the special case rank 0 / 1.) *)
+Theorem no_deadlock_ranked :
+  forall next body fails isnil maxdepth (rk : ref -> ty -> nat) progs sched s b,
+  wf_file next body -> wf_progs next progs -> ranked next body rk ->
+  run next body fails isnil maxdepth store_or_load (init progs) sched = (s, b) ->
+  (exists th, In th (ths s) /\ status (sh s) th <> 0) ->
+  exists tid s', step next body fails isnil maxdepth store_or_load s tid = Some s'.
+Proof. exact no_deadlock_ranked_thm. Qed.
+Print Assumptions no_deadlock_ranked.
+
+(* the cross-type programs of the harness (the decoder of (1,T0) exclusively decodes reference 1 as T1) and
+   the pages+form shape satisfy the condition; a cyclic dependency admits no rank - and deadlocks *)
+Example hyp_ranked_cross_type : ranked nonext body_cross rk_cross.
+Proof. exact cross_type_is_ranked. Qed.
+
+Example hyp_ranked_pages_form : ranked nonext body_form rk_form.
+Proof. exact pages_form_is_ranked. Qed.
+
+Example cyclic_dependency_has_no_rank : ~ exists rk, ranked nonext body_nosink rk.
+Proof. exact cyclic_has_no_rank. Qed.
+
+Example deadlock_when_cyclic :
+  let '(s, ok) := run nonext body_nosink never never 256 store_or_load
+                      (init [[OExcl true 1 0]; [OExcl true 2 0]]) [0;1; 0;0;0;0; 1;1;1;1; 0; 1] in
+  ok = true /\ statuses s = [2; 2].
+Proof. exact deadlock_without_sink. Qed.
+
 (* programs that never call DecodeExclusive never wait at all (status 2 = blocked) *)
 Theorem decode_only_never_wait :
   forall next body fails isnil maxdepth progs sched s b th,
@@ -170,16 +200,46 @@ Proof. exact decode_only_never_wait_thm. Qed.
 Print Assumptions decode_only_never_wait.
 
 (* ---- seq_equiv ---- *)
-(* the full statement: the class of every outcome is the class the call has when run alone *)
-Definition seq_equiv_full : Prop :=
-  forall next body fails isnil maxdepth progs sched s b tid c o,
+(* the full statement.  [alone next fails maxdepth r path t] is the class of the outcome of the call
+   (reference r, cursor path, type t) run alone on an empty cache.  An interleaved outcome differs from it
+   EXACTLY when the call returned a (cached) value although alone its walk ends in a cycle error, a depth
+   error, or a decoder error on an object of which StoreOrLoadPair has published a view of that type:
+   a cache hit ends the walk before the check.  (DecodeExclusive: called with a fresh cursor.) *)
+Theorem seq_equiv :
+  forall next body fails isnil maxdepth progs sched s b,
   wf_file next body -> wf_progs next progs ->
+  (forall e t, Forall xnp (body e t)) -> Forall (Forall xnp) progs ->
   run next body fails isnil maxdepth store_or_load (init progs) sched = (s, b) ->
-  In (EDec tid c o) (log (sh s)) -> class_of o = alone next fails maxdepth (cref c) (cpath c) (cty c).
+  (forall tid c o, In (EDec tid c o) (log (sh s)) ->
+     (class_of o <> alone next fails maxdepth (cref c) (cpath c) (cty c) <->
+      (exists v, o = Ok v) /\ masked next fails maxdepth (log (sh s)) (cref c) (cpath c) (cty c))) /\
+  (forall tid r t o, In (EExc tid r t o) (log (sh s)) ->
+     (class_of o <> alone next fails maxdepth r [] t <->
+      (exists v, o = Ok v) /\ masked next fails maxdepth (log (sh s)) r [] t)).
+Proof. exact seq_equiv_thm. Qed.
+Print Assumptions seq_equiv.
 
-(* proved: an error is returned only if the call alone returns an error of the same class
-   (DecodeExclusive: called with a fresh cursor, as the library does) ... *)
-Theorem seq_equiv_partial :
+(* every case of [masked] occurs (the first needs a second goroutine, the others happen sequentially) *)
+Example seq_masked_cycle :
+  let s := fst (run nonext body_mut never never 256 store_or_load
+                    (init [[ODecode true 1 0]; [ODecode true 1 0]]) [0;0;0;0;0;0;0; 1;1;1;1;1;1;1;1;1;1; 0]) in
+  differs nonext never 256 (log (sh s)).
+Proof. exact masked_cycle_occurs. Qed.
+
+Example seq_masked_depth :
+  let s := fst (run next12 nobody never never 1 store_or_load
+                    (init [[ODecode true 2 0; ODecode true 1 0]]) [0;0;0;0;0;0;0;0]) in
+  differs next12 never 1 (log (sh s)).
+Proof. exact masked_depth_occurs. Qed.
+
+Example seq_masked_by_pair :
+  let s := fst (run nonext nobody fails10 never 256 store_or_load
+                    (init [[OPair 1 0 1; ODecode true 1 0]]) [0;0;0]) in
+  differs nonext fails10 256 (log (sh s)).
+Proof. exact masked_by_pair_occurs. Qed.
+
+(* consequences: an error is returned only if the call alone returns an error of the same class ... *)
+Theorem seq_error_class :
   forall next body fails isnil maxdepth progs sched s b,
   wf_file next body -> wf_progs next progs ->
   (forall e t, Forall xnp (body e t)) -> Forall (Forall xnp) progs ->
@@ -188,7 +248,7 @@ Theorem seq_equiv_partial :
      alone next fails maxdepth (cref c) (cpath c) (cty c) = CErr x) /\
   (forall tid r t x, In (EExc tid r t (Err x)) (log (sh s)) -> alone next fails maxdepth r [] t = CErr x).
 Proof. exact seq_error_thm. Qed.
-Print Assumptions seq_equiv_partial.
+Print Assumptions seq_error_class.
 
 (* ... hence a call that succeeds alone succeeds under every interleaving (with the agreed value) *)
 Theorem seq_success :
@@ -201,9 +261,8 @@ Theorem seq_success :
 Proof. exact seq_success_thm. Qed.
 Print Assumptions seq_success.
 
-(* the converse direction of seq_equiv_full does not hold, already for one goroutine:
-   a cache hit ends the walk before the depth limit (or a cycle) is noticed *)
-Example seq_equiv_full_converse_fails_sequentially :
+(* a cache hit ends the walk before the depth limit is noticed - already for one goroutine *)
+Example cache_hit_masks_depth_sequentially :
   let s := fst (run next12 nobody never never 1 store_or_load
                     (init [[ODecode true 2 0; ODecode true 1 0]]) [0;0;0;0;0;0;0;0]) in
   alone next12 never 1 1 [] 0 = CErr EDepth /\
@@ -217,6 +276,20 @@ Theorem agree_prefix_refuted :
     disagree (log (sh s)) 2.
 Proof. exact agree_prefix_refuted_lemma. Qed.
 Print Assumptions agree_prefix_refuted.
+
+(* ---- the package-level (de)compressor pools (Pool.v; tie: the deterministic pool oracle) ---- *)
+(* a pool is a multiset of readers; POpen Gets a pooled reader or a new one, PClose Puts it back once.
+   As long as no reader is Put twice for one Get, streams that are open at the same time never share one *)
+Theorem pool_no_sharing :
+  forall l, forallb disciplined l = true -> NoDup (readers (prun pinit l)).
+Proof. exact pool_no_sharing_lemma. Qed.
+Print Assumptions pool_no_sharing.
+
+(* one double Put (a stage closed by DecodeStream's chain and again by the stage above it) and the next
+   two streams get the same reader *)
+Example pool_double_put_aliases :
+  readers (prun pinit [POpen 0 None; PCloseTwice 0; POpen 1 (Some 0); POpen 2 (Some 0)]) = [0; 0].
+Proof. exact double_put_aliases_lemma. Qed.
 
 (* ---- hypotheses are satisfiable; the restriction of no_deadlock is necessary ---- *)
 Example hyp_wf : wf_file next12 nobody /\ wf_progs next12 [[OPair 2 0 1]; [ODecode true 1 0; OExcl true 2 1]] /\
